@@ -17,11 +17,11 @@ RULE = (
     "included.  The tree from buildRemainingTreeAsLists (and its treeListToTuple rendering) must contain an unpruned leaf "
     "iff some of the (n-1)! elimination orders ending in that candidate is contradicted by no assertion (brute force), and "
     "every pruned node's tag lists must be exactly the assertions about the candidate eliminated at that node that "
-    "contradict every completion of the node's path (brute force over completions).  Non-trivial = tree with at least one pruned node below the root; distinct = distinct "
+    "contradict every completion of the node's path (brute force over completions).  The same sets go through buildPrintedResults for every apparent winner (the drawing library replaced by a recorder): every drawn tree's unpruned leaves must be exactly the uncontradicted orders.  Non-trivial = tree with at least one pruned node below the root; distinct = distinct "
     "(n, root, assertion set)"
 )
 ASSUMPTIONS = ["assertion sets are sets: no assertion is listed twice with the same confirmation flag", "NEN items whose eliminated set is everyone else are not well-formed and excluded"]
-REQUIRE_VAC = ["trees_with_unpruned_leaf", "trees_fully_pruned", "trees_pruned_below_root", "nodes_with_two_tags"]
+REQUIRE_VAC = ["buildPrintedResults_runs", "trees_with_unpruned_leaf", "trees_fully_pruned", "trees_pruned_below_root", "nodes_with_two_tags"]
 NAMES = ["1", "12", "11", "2"]  # identifiers that collide when concatenated without a separator ({1,12} v {11,2})
 PLAN = {"quick": {3: 15, 4: 3}, "thorough": {3: 15, 4: 5}}
 
@@ -169,6 +169,59 @@ def judge_wide(n, k, kind):
     return []
 
 
+def judge_printed(n, asns, flags, winner):
+    """the user-facing route: buildPrintedResults draws one tree per apparent non-winner; what it hands to the drawing
+    library (recorded by a stand-in for svgling.draw_tree) must be the rendering of that candidate's tree, whose unpruned
+    leaves are exactly the uncontradicted orders ending in that candidate"""
+    WO, IRV = to_lists(asns, flags)
+    drawn = []
+
+    class _Stub:
+        @staticmethod
+        def draw_tree(t, *a, **k):
+            drawn.append(t)
+            return "drawing"
+
+    real, realcap = V.svgling, V.Caption
+    V.svgling, V.Caption = _Stub, (lambda d, text: text)
+    try:
+        with contextlib.redirect_stdout(io.StringIO()), warnings.catch_warnings():
+            warnings.simplefilter("ignore")
+            nonw = [(NAMES[c], f"name{c}") for c in range(n) if c != winner]
+            caps = V.buildPrintedResults(NAMES[winner], list(nonw), list(WO), list(IRV))
+    except Exception as e:  # noqa
+        return [(f"C20|printed|exception|{type(e).__name__}", f"buildPrintedResults raised {type(e).__name__}: {str(e)[:80]}")]
+    finally:
+        V.svgling, V.Caption = real, realcap
+    out = []
+    if len(drawn) != n - 1:
+        return [("C20|printed|tree-count", f"{len(drawn)} trees drawn for {n - 1} apparent non-winners")]
+    for (cname, _), t in zip(nonw, drawn):
+        root = NAMES.index(cname)
+
+        def leaves(t, path):
+            if len(t) == 2 and isinstance(t[1], str):
+                yield path + [t[0]], t[1]
+            else:
+                for k in t[1:]:
+                    yield from leaves(k, path + [t[0]])
+
+        if t[0] != cname:
+            out.append(("C20|printed|root", f"the tree drawn for {cname} has root {t[0]}"))
+            continue
+        lv = list(leaves(t, []))
+        got_free = sorted(tuple(NAMES.index(c) for c in reversed(p)) for p, tag in lv if "Unpruned leaf" in tag)
+        if any(len(set(p)) != len(p) for p, _ in lv):
+            out.append(("C20|printed|candidate-twice-on-a-path", f"tree drawn for {cname}: a path names a candidate twice: {[p for p, _ in lv if len(set(p)) != len(p)][0]}"))
+            continue
+        orders = [pi + (root,) for pi in itertools.permutations([x for x in range(n) if x != root])]
+        free = sorted(pi for pi in orders if not any(contradicts(a, pi) for a in asns))
+        if got_free != free:
+            out.append(("C20|printed|unpruned-leaves", f"tree drawn for alternative winner {cname} (apparent winner {NAMES[winner]}) marks unpruned leaves {got_free}; "
+                        f"orders contradicted by no assertion: {free}"))
+    return out
+
+
 def flags_for(k, mode):
     return [False] * k if mode == 0 else [(i % 2 == 0) for i in range(k)]
 
@@ -209,6 +262,12 @@ def run_shard(sh, rec):
                         rec.vac("nodes_with_two_tags")
                 for key, what in v:
                     rec.violate(key, what, {"n": n, "root": root, "assertions": [[a[0], a[1], a[2] if a[0] == "NEB" else sorted(a[2])] for a in asns], "flags": fl, "int_ids": int_ids})
+                if not int_ids and mode == 0:
+                    pv = judge_printed(n, asns, fl, root)
+                    rec.evals()
+                    rec.vac("buildPrintedResults_runs")
+                    for key, what in pv:
+                        rec.violate(key, what, {"printed": True, "n": n, "winner": root, "assertions": [[a[0], a[1], a[2] if a[0] == "NEB" else sorted(a[2])] for a in asns], "flags": fl})
                 if rec.want_sample((n, idx, mode, root)):
                     rec.sample({"candidates": n, "alternative_winner": NAMES[root], "assertions": [show(a) for a in asns], "confirmed": fl, "tree_has_unpruned_leaf": info and info["unpruned"]})
 
@@ -234,4 +293,6 @@ def run_case(case):
     if case.get("wide"):
         return judge_wide(case["n"], case["k"], "root")
     asns = [(a[0], a[1], a[2]) if a[0] == "NEB" else (a[0], a[1], frozenset(a[2])) for a in case["assertions"]]
+    if case.get("printed"):
+        return judge_printed(case["n"], asns, case["flags"], case["winner"])
     return judge(case["n"], case["root"], asns, case["flags"], case.get("int_ids", False))[0]
